@@ -169,7 +169,7 @@ pub fn run_c02(ctx: &Ctx) -> i32 {
         }
     });
     // header path
-    let stride: u64 = ctx.tier.pick(4099, 1);
+    let stride: u64 = ctx.tier.pick(1021, 1);
     let chunk: u64 = 1 << 16;
     let total: u64 = 1 << 31;
     let nchunks = total / chunk;
@@ -264,7 +264,7 @@ pub fn run_c08(ctx: &Ctx) -> i32 {
     let mut out = Outcome::default();
     sched::install();
     // (a) encoder- and (b) parser-produced trees
-    let n = ctx.tier.pick(700, 25_000);
+    let n = ctx.tier.pick(1400, 50_000);
     run_cases(ctx, "streams", n, &mut out, |idx, out| {
         let mut rng = Rng::for_case(ctx.seed, "C08.streams", idx);
         let case = match idx % 5 {
@@ -298,7 +298,7 @@ pub fn run_c08(ctx: &Ctx) -> i32 {
         }
     });
     // (c) constructed residuals
-    let n = ctx.tier.pick(6000, 200_000);
+    let n = ctx.tier.pick(12_000, 400_000);
     run_cases(ctx, "residual", n, &mut out, |idx, out| {
         let mut rng = Rng::for_case(ctx.seed, "C08.residual", idx);
         let order = rng.usize_below(9);
@@ -422,7 +422,7 @@ pub fn run_c08(ctx: &Ctx) -> i32 {
         }
     }
     let numbers = Arc::new(numbers);
-    let nh = ctx.tier.pick(40_000, 600_000);
+    let nh = ctx.tier.pick(80_000, 1_200_000);
     let nm = Arc::clone(&numbers);
     run_cases(ctx, "header", nh, &mut out, |idx, out| {
         let mut rng = Rng::for_case(ctx.seed, "C08.header", idx);
@@ -705,7 +705,7 @@ pub fn run_c11(ctx: &Ctx) -> i32 {
         }
     });
     // random histories
-    let n = ctx.tier.pick(30_000, 1_500_000);
+    let n = ctx.tier.pick(100_000, 6_000_000);
     run_cases(ctx, "random", n, &mut out, |idx, out| {
         let mut rng = Rng::for_case(ctx.seed, "C11.random", idx);
         let len = 1 + rng.usize_below(if idx % 50 == 0 { 200 } else { 24 });
@@ -752,7 +752,7 @@ pub fn run_c11(ctx: &Ctx) -> i32 {
         }
     });
     // user-defined sink with only the required methods receives the same bits (components)
-    let n = ctx.tier.pick(150, 5000);
+    let n = ctx.tier.pick(450, 15_000);
     run_cases(ctx, "usersink", n, &mut out, |idx, out| {
         let mut rng = Rng::for_case(ctx.seed, "C11.usersink", idx);
         let case = gen_case(&mut rng, &Limits { max_samples: 5000, ..Limits::default() });
@@ -845,7 +845,7 @@ fn fault_sweep<T: BitRepr>(ctx: &Ctx, what: &str, c: &T, max_dense: usize, out: 
 
 pub fn run_c12(ctx: &Ctx) -> i32 {
     let mut out = Outcome::default();
-    let n = ctx.tier.pick(60, 1500);
+    let n = ctx.tier.pick(200, 6000);
     run_cases(ctx, "streams", n, &mut out, |idx, out| {
         let mut rng = Rng::for_case(ctx.seed, "C12.streams", idx);
         let mut case = gen_case(&mut rng, &Limits { max_samples: 700, max_blocks: 3, max_block_size: 200, channel_choices: vec![1, 2, 2, 3], ..Limits::default() });
@@ -947,7 +947,7 @@ pub fn run_c14(ctx: &Ctx) -> i32 {
     let vcfg = verbatim_only();
     // (b)+(c): fills
     let caps = [32usize, 33, 64, 257, 4096];
-    let n = ctx.tier.pick(20_000, 800_000);
+    let n = ctx.tier.pick(60_000, 3_200_000);
     run_cases(ctx, "fills", n, &mut out, |idx, out| {
         let mut rng = Rng::for_case(ctx.seed, "C14.fills", idx);
         let channels = 1 + (idx % 8) as usize;
@@ -1036,7 +1036,7 @@ pub fn run_c14(ctx: &Ctx) -> i32 {
     // (b') the (FrameBuf, Context) pair the stream encoder fills, driven with sequences that also
     // contain fills the buffer must refuse (too long) and empty fills: after every step - accepted
     // or refused - both delivery paths must have left the pair in the same state
-    let n = ctx.tier.pick(6000, 300_000);
+    let n = ctx.tier.pick(18_000, 1_200_000);
     run_cases(ctx, "tuple", n, &mut out, |idx, out| {
         let mut rng = Rng::for_case(ctx.seed, "C14.tuple", idx);
         let channels = 1 + (idx % 8) as usize;
@@ -1110,7 +1110,7 @@ pub fn run_c14(ctx: &Ctx) -> i32 {
         }
     });
     // (a) streams
-    let n = ctx.tier.pick(1200, 40_000);
+    let n = ctx.tier.pick(3600, 160_000);
     run_cases(ctx, "streams", n, &mut out, |idx, out| {
         let mut rng = Rng::for_case(ctx.seed, "C14.streams", idx);
         let mut case = gen_case(&mut rng, &Limits { max_samples: 12_000, max_blocks: 4, ..Limits::default() });
